@@ -51,6 +51,49 @@ def classify(exp, got, panic):
     return "C03:?"
 
 
+def has_hoist_after_effect(text: str) -> bool:
+    """True if some statement evaluates a call to a user function (which may report results) and
+    *afterwards*, inside the same statement, a sub-expression that /repo hoists in front of the
+    statement (conditional expression, and/or/not, chained comparison, walrus) and that itself
+    contains such a call.  That is the shape of the known evaluation-order finding shared with C05."""
+    import ast
+
+    tree = ast.parse(text)
+    user = {n.name for n in ast.walk(tree) if isinstance(n, ast.FunctionDef)}
+
+    def is_hoisted(n):
+        return isinstance(n, (ast.IfExp, ast.BoolOp, ast.NamedExpr)) or \
+            (isinstance(n, ast.Compare) and len(n.ops) > 1) or \
+            (isinstance(n, ast.UnaryOp) and isinstance(n.op, ast.Not))
+
+    def calls_user(n):
+        return any(isinstance(c, ast.Call) and isinstance(c.func, ast.Name) and c.func.id in user
+                   for c in ast.walk(n))
+
+    for stmt in ast.walk(tree):
+        if not isinstance(stmt, (ast.Assign, ast.AugAssign, ast.AnnAssign, ast.Expr, ast.Return)):
+            continue
+        seen_effect = False
+        found = False
+
+        def walk(n):
+            nonlocal seen_effect, found
+            if is_hoisted(n) and seen_effect and calls_user(n):
+                found = True
+            if isinstance(n, ast.Call) and isinstance(n.func, ast.Name) and n.func.id in user:
+                for a in n.args:
+                    walk(a)
+                seen_effect = True
+                return
+            for ch in ast.iter_child_nodes(n):
+                walk(ch)
+
+        walk(stmt)
+        if found:
+            return True
+    return False
+
+
 def judge_text(ctx, text, want_fp=None):
     try:
         exp, exp_panic = opy.run_source(text)
@@ -86,6 +129,9 @@ def judge_text(ctx, text, want_fp=None):
     else:
         rec["status"] = "violated"
         rec["mech"] = classify(exp, got, out.panic)
+        if out.panic is None and sorted(map(repr, exp)) == sorted(map(repr, got)) and has_hoist_after_effect(text):
+            # same events, different order, and the program has the known shape
+            rec["mech"] = "C03:result-order:hoisted-subexpression-evaluated-before-earlier-operands"
         rec["witness"] = {"text": text, "expected": exp, "observed": got, "panic": out.panic}
     return rec
 
